@@ -374,6 +374,20 @@ func (s FactSet) Has(pat string) (string, bool) {
 		if f, ok := s[alt]; ok {
 			return f.Key(), true
 		}
+		// ne(C, X) for a constant C follows from eq(C', X) with another constant C'
+		if strings.HasPrefix(alt, "ne(") && !strings.Contains(alt, "*") {
+			if i := strings.Index(alt, ", "); i > 3 && isConstText(alt[3:i]) {
+				rest := alt[i:]
+				for k := range s {
+					if strings.HasPrefix(k, "eq(") && strings.HasSuffix(k, rest) {
+						c2 := k[3 : len(k)-len(rest)]
+						if isConstText(c2) && c2 != alt[3:i] && sameConstType(c2, alt[3:i]) {
+							return k, true
+						}
+					}
+				}
+			}
+		}
 		if strings.Contains(alt, "*") {
 			for _, k := range s.Keys() {
 				if Glob(alt, k) {
@@ -406,4 +420,24 @@ func swapSym(pat string) string {
 		}
 	}
 	return ""
+}
+
+func isConstText(t string) bool {
+	if t == "" {
+		return false
+	}
+	c := t[0]
+	return (c >= '0' && c <= '9') || c == '-' || c == '"'
+}
+
+// sameConstType: "2:MessageType" vs "0:MessageType" (typed) or two untyped numbers.
+func sameConstType(a, b string) bool {
+	ta, tb := "", ""
+	if i := strings.Index(a, ":"); i >= 0 {
+		ta = a[i:]
+	}
+	if i := strings.Index(b, ":"); i >= 0 {
+		tb = b[i:]
+	}
+	return ta == tb
 }
